@@ -2,6 +2,7 @@ package pypi
 
 import (
 	"fmt"
+	"strconv"
 	"strings"
 )
 
@@ -97,9 +98,15 @@ func parseCompatibleRelease(version string) ([]*constraint, error) {
 		}, nil
 	}
 
-	// ~=1.4.2 is equivalent to >=1.4.2, <1.5.0
+	// ~=2.2 is equivalent to >=2.2, <3.0 and ~=1.4.2 to >=1.4.2, <1.5.0:
+	// the last release segment is dropped and the one before it is incremented
 	if len(v.release) >= 2 {
-		upperVersion := fmt.Sprintf("%d.%d.0", v.release[0], v.release[1]+1)
+		prefix := make([]string, len(v.release)-1)
+		for i := range prefix {
+			prefix[i] = strconv.Itoa(v.release[i])
+		}
+		prefix[len(prefix)-1] = strconv.Itoa(v.release[len(prefix)-1] + 1)
+		upperVersion := strings.Join(prefix, ".") + ".0"
 		return []*constraint{
 			{operator: ">=", version: version},
 			{operator: "<", version: upperVersion},
